@@ -17,14 +17,15 @@ Threads == 1..NThreads
 C(op, m, cfg, h) == [op |-> op, m |-> m, cfg |-> cfg, h |-> h]
 (* job lists: 1 plain calls on two maps; 2..5 hand-over of a gradual calculator over the osu / taiko / catch /   *)
 (* mania map, with a calculation under OTHER settings on the same map in between (so that a receiving thread  *)
-(* has state of its own); 6 plain calls that differ only in lazer mod settings; 7 TWO gradual calculators with different settings over one shared map, stepped in lockstep and handed between threads (a worker steps whatever it is handed)                                *)
+(* has state of its own); 6 plain calls that differ only in lazer mod settings; 7..10 TWO gradual calculators with different settings over one shared map (taiko / osu / catch / mania), stepped in lockstep and handed between threads (a worker steps whatever it is handed)                                *)
 Handover(m) == <<C("gnext", m, "A", "h1"), C("calc", m, "D", "-"), C("gnext", m, "A", "h1"), C("gnext", m, "A", "h1")>>
 JobList == CASE Jobs = 1 -> <<C("calc", "m1", "A", "-"), C("perf", "m1", "A", "-"), C("calc", "m2", "A", "-"), C("strains", "m1", "B", "-")>>
              [] Jobs = 2 -> Handover("m1")
              [] Jobs = 3 -> Handover("m2")
              [] Jobs = 4 -> Handover("m3")
              [] Jobs = 5 -> Handover("m4")
-             [] Jobs = 7 -> <<C("gnext", "m2", "C", "h3"), C("gnext", "m2", "D", "h4"), C("gnext", "m2", "C", "h3"), C("gnext", "m2", "D", "h4")>>
+             [] Jobs \in 7..10 -> LET m == CASE Jobs = 7 -> "m2" [] Jobs = 8 -> "m1" [] Jobs = 9 -> "m3" [] OTHER -> "m4"
+                                 IN <<C("gnext", m, "C", "h3"), C("gnext", m, "D", "h4"), C("gnext", m, "C", "h3"), C("gnext", m, "D", "h4")>>
              [] OTHER -> <<C("calc", "m2", "C", "-"), C("calc", "m2", "D", "-"), C("strains", "m2", "C", "-"), C("perf", "m2", "D", "-")>>
 N == Len(JobList)
 Handles == {"h1", "h2", "h3", "h4", "h5", "h6"}
